@@ -724,11 +724,11 @@ func VP_C04_int_range() {
 }
 
 // conversion is a function of the text, not of what was converted before in the
-// process (pooled scratch buffers, caches): after any text of 2..5 (thorough 2..7) bytes from
+// process (pooled scratch buffers, caches): after any text of 2..5 (thorough 2..6) bytes from
 // a list-heavy alphabet - accepted or rejected at any point - a fixed valid text
 // of each container kind converts to its reference bytes.
 func VP_C04_history() {
-	n := vp.Choice(4+2*vp.Tier()) + 2
+	n := vp.Choice(4+vp.Tier()) + 2
 	first := vp.Bytes(n)
 	alphabet := "[],;1bBI x"
 	if vp.Tier() == 1 {
